@@ -1,9 +1,6 @@
 import Huginn.Drv.Proto
-import Huginn.Drv.C14
+import Huginn.Drv.All
 open Huginn.Drv
-
-def allHandlers : List (String × (String → P Verdict)) :=
-  Huginn.Drv.C14.handlers
 
 def handleLine (line : String) : String :=
   match line.splitOn " => " with
